@@ -146,6 +146,11 @@ def benign(argv):
     import plans
     props = props[0] if props else sorted(plans.PLANS)
     cat = json.load(open(os.path.join(VERIF, "benign", "catalogue.json")))
+    ad = os.path.join(VERIF, "benign", "agents")
+    if os.path.isdir(ad):
+        for fn in sorted(os.listdir(ad)):
+            if fn.endswith(".diff"):
+                cat.append({"id": "agent-" + fn[:-5], "patch": os.path.join(ad, fn), "note": "independent behaviour-preserving refactoring"})
     if ids:
         cat = [m for m in cat if any(m["id"].startswith(i) for i in ids)]
     bad = []
@@ -175,6 +180,8 @@ def mutants(argv):
     with_tests = "--with-tests" in argv
     tier = "thorough" if "--thorough" in argv else "quick"
     ids = [a for a in argv if not a.startswith("--")]
+    seeds = [a[8:].split(",") for a in argv if a.startswith("--seeds=")]
+    seeds = seeds[0] if seeds else [os.environ.get("VERIF_SEED", "0")]
     ms = load_catalogue()
     if ids:
         ms = [m for m in ms if any(m["id"] == i or m["id"].startswith(i) or m["property"] == i for i in ids)]
@@ -190,22 +197,28 @@ def mutants(argv):
             props = [m["property"]] if isinstance(m["property"], str) else list(m["property"])
             caught = []
             t0 = time.time()
-            for p in props:
-                env = dict(os.environ, VERIF_REPO=dst, VERIF_EVIDENCE_DIR=os.path.join(dst, "_evidence"),
-                           VERIF_OUT_DIR=os.path.join(dst, "_out"))
-                r = subprocess.run([PY, os.path.join(HERE, "check.py"), p, tier], capture_output=True, text=True,
-                                   env=env, timeout=7200)
-                if r.returncode == 1 and "VIOLATION property=%s" % p in r.stdout:
-                    caught.append(p)
-                elif r.returncode not in (0, 1):
-                    caught.append(p + ":rc%d" % r.returncode)
-                    out(r.stdout[-1500:])
+            per_seed = []
+            for sd in seeds:
+                hit = False
+                for p in props:
+                    env = dict(os.environ, VERIF_REPO=dst, VERIF_EVIDENCE_DIR=os.path.join(dst, "_evidence"),
+                               VERIF_OUT_DIR=os.path.join(dst, "_out"), VERIF_SEED=str(sd))
+                    r = subprocess.run([PY, os.path.join(HERE, "check.py"), p, tier], capture_output=True, text=True,
+                                       env=env, timeout=7200)
+                    if r.returncode == 1 and "VIOLATION property=%s" % p in r.stdout:
+                        caught.append(p)
+                        hit = True
+                    elif r.returncode not in (0, 1):
+                        caught.append(p + ":rc%d" % r.returncode)
+                        out(r.stdout[-1500:])
+                per_seed.append(hit)
             dt = time.time() - t0
-            status = "CAUGHT" if any(":" not in c for c in caught) else "MISSED"
+            status = "CAUGHT" if all(per_seed) else ("PARTIAL(%d/%d seeds)" % (sum(per_seed), len(per_seed)) if any(per_seed) else "MISSED")
+            caught = sorted(set(caught))
             out("%-7s %-44s %-10s by=%s tests=%s %.0fs" % (status, m["id"], ",".join(props), ",".join(caught) or "-", tests, dt))
             results.append((m["id"], status))
         finally:
             shutil.rmtree(dst, ignore_errors=True)
-    missed = [i for i, s in results if s != "CAUGHT"]
+    missed = [i + ("" if s == "MISSED" else " " + s) for i, s in results if s != "CAUGHT"]
     out("mutants: %d/%d caught; missed: %s" % (len(results) - len(missed), len(results), missed))
     return 0 if not missed else 3
